@@ -15,7 +15,7 @@ RULE = ("each case: one cap of a drawn kind (18 kinds, random secrets) and one (
         "distinct by (kind, secrets, context).")
 LEVEL_TEXT = "Search over every cap kind and every alleged-prefix/context combination with an explicit authority table as oracle."
 ASSUMPTIONS = ["NodeMaker is constructed without a storage broker (nodes are never used for I/O)"]
-REQUIRED_CLASSES = ["must-reject", "chain-write", "chain-read", "unknown-node"]
+REQUIRED_CLASSES = ["must-reject", "chain-write", "chain-read", "unknown-node", "opaque-contradiction"]
 BUDGET = {"quick": 600, "thorough": 3600}
 
 READ_OF = {"SSK": "SSK-RO", "MDMF": "MDMF-RO", "DIR2": "DIR2-RO", "DIR2-MDMF": "DIR2-MDMF-RO"}
@@ -186,6 +186,16 @@ def run_case(case, ctx):
             classes.append("unknown-node")
             # an opaque node never promotes anything into the write slot: in a deep-immutable context or when the cap
             # was only given in the ro slot there is no write uri; otherwise it is at most what the caller put there
+            if must_reject and slot != "both":
+                # a cap whose alleged prefix / context contradicts its real strength is kept as an opaque node that records the contradiction
+                # and gives out none of the cap's strings (so that nothing can later strip the prefix and use the stronger cap)
+                ctx.check(getattr(node, "error", None) is not None, "contradiction-not-recorded",
+                          "create_from_cap(%r,%r,deep=%r): the UnknownNode for a %s cap under a contradicting prefix/context records no error" % (rw_arg, ro_arg, deep, kind))
+                for getter in ("get_uri", "get_write_uri", "get_readonly_uri"):
+                    v = getattr(node, getter)()
+                    ctx.check(v is None or not (leaks(v, key16) if kind in C.WRITE_KINDS else False), "secret-leak",
+                              "create_from_cap(%r,%r,deep=%r): UnknownNode.%s() = %r still carries the write key of a cap that is not allowed to be writeable here" % (rw_arg, ro_arg, deep, getter, v))
+                classes.append("opaque-contradiction")
             if deep or slot == "ro":
                 ctx.check(node.get_write_uri() is None, "unknown-node-write-uri", "UnknownNode for %r (deep=%r slot=%s) exposes write uri %r" % (capstr, deep, slot, node.get_write_uri()))
             else:
